@@ -170,14 +170,17 @@ def oc_family(tier):
     last alternative (incl. nullable ones) x context (sibling rule after, tokens around, tokens before
     the choice inside the rule, loop, start rule, elided rule, creation around), all with a skipped
     token.  lelwel itself filters the accepted ones.  quick: every (first, last) pair once with the
-    contexts rotating (pairwise coverage); thorough: the full product."""
+    contexts rotating (pairwise coverage); thorough: the full product.
+    Context `condel`: the rule also has a conditional elision (rule-local `elide` and `node_kind` are
+    both saved and restored around an attempt)."""
     firsts = ["A B", "A B C", "t B", "A u", "A (B | C) D", "A [B] C", "A B* C", "<1 A B 1>x C", "A @n B",
               "A ^ B", "A ~ B C", "A B ~ C", "A !1 B", "(A | C) B* D", "A B+ C", "e B"]
     lasts = ["A C", "[C]", "A*", "A", "t C", "C", "A [C]", "()", "C D", "e C"]
     ctxs = [("sib", "s: r t2;\nr: %s;\nt2: A D;\n"), ("mid", "s: P r Q;\nr: %s;\n"),
             ("pre", "s: r Q;\nr: P (%s);\n"), ("loop", "s: (r)* D;\nr: %s;\n"), ("start", "s: %s;\n"),
             ("elided", "s: r+ D;\nr^: %s;\n"), ("create", "s: P <1 r 1>y Q;\nr: %s;\n"),
-            ("prepost", "s: r Q;\nr: P (%s) Q;\n"), ("presib", "s: r t2;\nr: P (%s);\nt2: A D;\n")]
+            ("prepost", "s: r Q;\nr: P (%s) Q;\n"), ("presib", "s: r t2;\nr: P (%s);\nt2: A D;\n"),
+            ("condel", "s: r+ D;\nr: (%s) [Q ^];\n")]
     triples = [(i, j, c) for i in range(len(firsts)) for j in range(len(lasts)) for c in range(len(ctxs))]
     if tier != "quick":
         # thorough: every third triple of the full product (405 grammars) on top of the pairwise cover
@@ -402,6 +405,9 @@ def judge(prop, tier):
         import p1
         files = files + [(g["name"], G.render(dict(g, tokens=g["tokens"] + [{"name": "W", "sym": ""}], skip=["W"])))
                          for g in p1.parts_family()]
+    only = os.environ.get("VERIF_ONLY")     # debugging aid: judge the grammars whose name contains this
+    if only:
+        files = [f for f in files if only in (os.path.basename(f) if isinstance(f, str) else f[0])]
     built = build_all(files)
     cap = 1600 if tier == "quick" else 4000
     if prop == "C07":
